@@ -789,6 +789,13 @@ func lateRecipes(seed uint64, sc *Scenario) {
 		pre(Entry{Name: "cfg/v1/", Type: "dir", Mode: 0o755, Sec: 1000000000},
 			Entry{Name: simkit.Pick(r, []string{"/cfg/current", "/cfg/current", "//cfg/current"}), Type: "sym", Mode: 0o777, Sec: 1000000000, Link: "../.." + dst + "/cfg/v1"})
 	}
+	if r := simkit.NewRNG(seed, "uw/detour-link"); r.Chance(1, 10) {
+		// a link that leaves the destination and comes back by the destination's own name: where
+		// the destination is a link (or lies behind one) that name is another place
+		base := dst[strings.LastIndex(dst, "/")+1:]
+		pre(Entry{Name: "conf/", Type: "dir", Mode: 0o755, Sec: 1000000000},
+			Entry{Name: simkit.Pick(r, []string{"l", "conf/l"}), Type: "sym", Mode: 0o777, Sec: 1000000000, Link: simkit.Pick(r, []string{"../" + base + "/secret", "../../" + base + "/conf/key", "../" + base, "./../" + base + "/conf"})})
+	}
 	if r := simkit.NewRNG(seed, "uw/hard-of-link"); r.Chance(1, 15) {
 		// a hard link, nearer the top, to a symbolic link whose target climbs
 		pre(Entry{Name: "shared/", Type: "dir", Mode: 0o755, Sec: 1000000000},
